@@ -33,9 +33,9 @@ Definition canary : string := "/R/db2/secret/*/*/*/*/*.parquet".
    names nor on the skip list) were replaced by read_parquet of their measurement, literals restored;
    and every measurement so read is covered by a reference that was handed to the permission check
    (same database, same measurement up to ASCII case). *)
-Theorem C14_transform_path_sound : forall s chk rt text,
+Theorem C14_transform_path_sound : forall fx s chk rt text,
   req_in_grammar s = true ->
-  gate s [] = OExec chk rt text -> rt = Transformed ->
+  gate_gen fx s [] = OExec chk rt text -> rt = Transformed ->
   text = restore s (toks (subst_segs (req_names s) (cte_names (req_toks s)) k_default true (req_segs s)))
   /\ forall r, In r (rewritten_refs (req_names s) (cte_names (req_toks s)) k_default true (req_segs s)) -> covers chk r = true.
 Proof. exact gate_transform_nohdr. Qed.
@@ -43,20 +43,33 @@ Print Assumptions C14_transform_path_sound.
 
 (* 2. Transform path with the x-arc-database header (the regexp path of convertSQLToStoragePathsWithHeaderDB):
    the same, for requests on which the converter looks for CTE names whenever the permission check does. *)
-Theorem C14_transform_path_sound_header : forall s hdr chk rt text,
-  req_in_grammar s = true -> hdr <> [] -> fast_single_ok s = false ->
-  hdr_ctes (req_toks s) = cte_names (req_toks s) ->
-  gate s hdr = OExec chk rt text -> rt = Transformed ->
-  text = restore s (toks (subst_segs (req_names s) (hdr_ctes (req_toks s)) hdr false (req_segs s)))
-  /\ forall r, In r (rewritten_refs (req_names s) (hdr_ctes (req_toks s)) hdr false (req_segs s)) -> covers chk r = true.
+Theorem C14_transform_path_sound_header : forall fx s hdr chk rt text,
+  req_in_grammar s = true -> hdr <> [] -> fast_single_ok (fx_with fx) s = false ->
+  hdr_ctes (fx_with fx) (req_toks s) = cte_names (req_toks s) ->
+  gate_gen fx s hdr = OExec chk rt text -> rt = Transformed ->
+  text = restore s (toks (subst_segs (req_names s) (hdr_ctes (fx_with fx) (req_toks s)) hdr false (req_segs s)))
+  /\ forall r, In r (rewritten_refs (req_names s) (hdr_ctes (fx_with fx) (req_toks s)) hdr false (req_segs s)) -> covers chk r = true.
 Proof. exact gate_transform_hdr. Qed.
 Print Assumptions C14_transform_path_sound_header.
+
+(* ... and with the repair C14_header_cte_names_same_pattern that hypothesis is gone *)
+Theorem C14_transform_path_sound_header_repaired : forall fx s hdr chk rt text,
+  fx_with fx = true ->
+  req_in_grammar s = true -> hdr <> [] -> fast_single_ok true s = false ->
+  gate_gen fx s hdr = OExec chk rt text -> rt = Transformed ->
+  text = restore s (toks (subst_segs (req_names s) (cte_names (req_toks s)) hdr false (req_segs s)))
+  /\ forall r, In r (rewritten_refs (req_names s) (cte_names (req_toks s)) hdr false (req_segs s)) -> covers chk r = true.
+Proof.
+  intros fx s hdr chk rt text Hfx Hg Hh Hf H Hrt.
+  pose proof (gate_transform_hdr fx s hdr chk rt text Hg Hh) as T. rewrite Hfx in T. exact (T Hf eq_refl H Hrt).
+Qed.
+Print Assumptions C14_transform_path_sound_header_repaired.
 
 (* 3. The two raw fast paths execute the request text itself: nothing is rewritten, so what DuckDB reads
    is decided by DuckDB's own lexer and grammar (sound only under lexer agreement and when no literal of
    the statement names a file: see the refutations below). *)
-Theorem C14_raw_path_text : forall s hdr chk rt text,
-  gate s hdr = OExec chk rt text -> rt <> Transformed -> text = s.
+Theorem C14_raw_path_text : forall fx s hdr chk rt text,
+  gate_gen fx s hdr = OExec chk rt text -> rt <> Transformed -> text = s.
 Proof. exact gate_raw_text. Qed.
 Print Assumptions C14_raw_path_text.
 
@@ -67,12 +80,12 @@ Example C14_guard_satisfiable :
   req_in_grammar s = true /\ pathlike_free s = true
   /\ gate s [] = OExec [(bs "db1", bs "cpu"); (bs "db1", bs "CPU"); (bs "db1", bs "mem")] Transformed
        (bs ("WITH recent AS (SELECT id, host FROM read_parquet('/R/db1/cpu/**/*.parquet', union_by_name=true) WHERE tag <> 'from -- x')   SELECT r.host, count(*) FROM recent r LEFT OUTER JOIN read_parquet('/R/db1/mem/**/*.parquet', union_by_name=true) m ON r.id = m.id NATURAL JOIN (SELECT id FROM read_parquet('/R/db1/CPU/**/*.parquet', union_by_name=true)) q " ++ nl ++ " GROUP BY r.host"))
-  /\ request_reads s [] = [(bs "db1", bs "cpu"); (bs "db1", bs "mem"); (bs "db1", bs "CPU")].
+  /\ request_reads fx_none s [] = [(bs "db1", bs "cpu"); (bs "db1", bs "mem"); (bs "db1", bs "CPU")].
 Proof. vm_compute. repeat split. Qed.
 
 Example C14_guard_satisfiable_header :
   let s := bs ("SELECT a.host FROM cpu a FULL OUTER JOIN (SELECT * FROM mem) m ON a.id = m.id /* x */ WHERE a.tag = 'q'") in
-  req_in_grammar s = true /\ fast_single_ok s = false /\ hdr_ctes (req_toks s) = cte_names (req_toks s)
+  req_in_grammar s = true /\ fast_single_ok false s = false /\ hdr_ctes false (req_toks s) = cte_names (req_toks s)
   /\ gate s (bs "db1") = OExec [(bs "db1", bs "cpu"); (bs "db1", bs "mem")] Transformed
        (bs "SELECT a.host FROM read_parquet('/R/db1/cpu/**/*.parquet', union_by_name=true) a FULL OUTER JOIN (SELECT * FROM read_parquet('/R/db1/mem/**/*.parquet', union_by_name=true)) m ON a.id = m.id   WHERE a.tag = 'q'").
 Proof. vm_compute. repeat split. Qed.
@@ -128,6 +141,14 @@ Theorem C14_quoted_comment_marker_refuted :
   let s := bs "SELECT 1 AS ""--"", * FROM read_parquet('/R/db2/secret/**/*.parquet')" in accepted_unchecked s [] RawReadParquet s.
 Proof. vm_compute. reflexivity. Qed.
 
+(* (f') ... and hides a string in a cross-join table position from stringLiteralInTablePosition, which runs on the
+   same quote-stripped text: a transform-path read, no file-reading function needed *)
+Theorem C14_quoted_comment_marker_string_position_refuted :
+  let s := bs ("SELECT 'x' AS ""--"" FROM db1.cpu t1, '" ++ canary ++ "' t2") in
+  gate s [] = OExec [(bs "db1", bs "cpu")] Transformed
+       (bs ("SELECT 'x' AS ""--"" FROM read_parquet('/R/db1/cpu/**/*.parquet', union_by_name=true) t1, '" ++ canary ++ "' t2")).
+Proof. vm_compute. reflexivity. Qed.
+
 (* (g) table functions that run SQL text are not on the denylist *)
 Theorem C14_query_function_refuted :
   let s := bs ("SELECT * FROM query('SELECT * FROM ''" ++ canary ++ "''')") in accepted_unchecked s [] Transformed s.
@@ -137,19 +158,28 @@ Proof. vm_compute. reflexivity. Qed.
    the permission check always: after WITH + newline the "CTE reference" is unchecked AND rewritten *)
 Theorem C14_header_cte_refuted :
   let s := bs ("WITH" ++ nl ++ "secret AS (SELECT 1) SELECT * FROM secret") in
-  req_in_grammar s = true /\ pathlike_free s = true /\ fast_single_ok s = true
+  req_in_grammar s = true /\ pathlike_free s = true /\ fast_single_ok false s = true
   /\ accepted_unchecked s (bs "db2") Transformed
        (bs ("WITH" ++ nl ++ "secret AS (SELECT 1) SELECT * FROM read_parquet('/R/db2/secret/**/*.parquet', union_by_name=true)")).
 Proof. vm_compute. repeat split. Qed.
 (* ... and the same on the regexp path of the header converter (a literal turns the fast path off) *)
 Theorem C14_header_cte_slow_path_refuted :
   let s := bs ("WITH" ++ nl ++ "secret AS (SELECT 'x') SELECT * FROM secret") in
-  req_in_grammar s = true /\ pathlike_free s = true /\ fast_single_ok s = false
-  /\ hdr_ctes (req_toks s) <> cte_names (req_toks s)
+  req_in_grammar s = true /\ pathlike_free s = true /\ fast_single_ok false s = false
+  /\ hdr_ctes false (req_toks s) <> cte_names (req_toks s)
   /\ accepted_unchecked s (bs "db2") Transformed
        (bs ("WITH" ++ nl ++ "secret AS (SELECT 'x') SELECT * FROM read_parquet('/R/db2/secret/**/*.parquet', union_by_name=true)"))
-  /\ request_reads s (bs "db2") = [(bs "db2", bs "secret")].
+  /\ request_reads fx_none s (bs "db2") = [(bs "db2", bs "secret")].
 Proof. vm_compute. split; [reflexivity|]. split; [reflexivity|]. split; [reflexivity|]. split; [discriminate|]. split; reflexivity. Qed.
+(* ... and without any WITH: the second definition of a WINDOW clause looks like a CTE to the permission check *)
+Theorem C14_header_window_clause_refuted :
+  let s := bs "SELECT * FROM secret WINDOW w1 AS (ORDER BY id), secret AS (ORDER BY id)" in
+  req_in_grammar s = true /\ pathlike_free s = true
+  /\ accepted_unchecked s (bs "db2") Transformed
+       (bs "SELECT * FROM read_parquet('/R/db2/secret/**/*.parquet', union_by_name=true) WINDOW w1 AS (ORDER BY id), secret AS (ORDER BY id)")
+  /\ gate_gen {| fx_with := true; fx_dedup := false; fx_scanner := false; fx_denylist := false; fx_noraw := false; fx_bsq := false |} s (bs "db2")
+     = OExec [] Transformed s.
+Proof. vm_compute. repeat split. Qed.
 
 (* (i) a string after JOIN LATERAL is not flagged (the scanner forgets JOIN at the word LATERAL), its placeholder
    is taken as the table name, and the unmasking splices the raw literal INTO the quoted path *)
@@ -166,7 +196,7 @@ Theorem C14_case_dedup_refuted :
   let s := bs "SELECT * FROM cpu a JOIN CPU b ON a.id = b.id" in
   req_in_grammar s = true /\ pathlike_free s = true
   /\ exists text, gate s (bs "db1") = OExec [(bs "db1", bs "cpu")] Transformed text
-  /\ request_reads s (bs "db1") = [(bs "db1", bs "cpu"); (bs "db1", bs "CPU")]
+  /\ request_reads fx_none s (bs "db1") = [(bs "db1", bs "cpu"); (bs "db1", bs "CPU")]
   /\ covers_exact [(bs "db1", bs "cpu")] (bs "db1", bs "CPU") = false
   /\ covers [(bs "db1", bs "cpu")] (bs "db1", bs "CPU") = true.
 Proof. vm_compute. repeat split. eexists. repeat split. Qed.
@@ -186,11 +216,11 @@ Proof.
 Qed.
 Print Assumptions C16_transform_is_subst.
 
-Theorem C16_transform_is_subst_header : forall names hdr ts, in_grammar names ts = true ->
-  passes_hdr names hdr ts = toks (subst_segs names (hdr_ctes ts) hdr false (segs_of ts)).
+Theorem C16_transform_is_subst_header : forall same names hdr ts, in_grammar names ts = true ->
+  passes_hdr same names hdr ts = toks (subst_segs names (hdr_ctes same ts) hdr false (segs_of ts)).
 Proof.
-  intros names hdr ts H. destruct (in_grammar_facts _ _ H) as (E & Hwf & Hrp).
-  rewrite <- E at 1. rewrite (passes_hdr_subst names Hrp hdr _ Hwf), E. reflexivity.
+  intros same names hdr ts H. destruct (in_grammar_facts _ _ H) as (E & Hwf & Hrp).
+  rewrite <- E at 1. rewrite (passes_hdr_subst names Hrp same hdr _ Hwf), E. reflexivity.
 Qed.
 Print Assumptions C16_transform_is_subst_header.
 
